@@ -187,11 +187,13 @@ def renderAux : Bool → List PTok → List Char
 def render (ps : List PTok) : String := String.ofList (renderAux true ps)
 
 /-- The tokens of the rendering, as the parser sees them (`ln` = current line). A token that starts
-a line does not touch its predecessor, except token 0 at offset 0 (by the convention for
-`touchesPrev`) — printed trees never glue a line-initial token, so `touch` is used as is. -/
-def lexOf : Nat → List PTok → List Tok
-  | _, [] => []
-  | ln, .nl :: r => lexOf (ln + 1) r
-  | ln, .t s touch :: r => ⟨s, touch, ln, ln⟩ :: lexOf ln r
+a line does not touch its predecessor (`afterNl`), whatever its `touch` flag says. Token 0 at offset 0
+keeps its flag (`true` by the convention for `touchesPrev`). -/
+def lexAux : Bool → Nat → List PTok → List Tok
+  | _, _, [] => []
+  | _, ln, .nl :: r => lexAux true (ln + 1) r
+  | afterNl, ln, .t s touch :: r => ⟨s, touch && !afterNl, ln, ln⟩ :: lexAux false ln r
+
+def lexOf (ln : Nat) (ps : List PTok) : List Tok := lexAux false ln ps
 
 end Print
